@@ -15,6 +15,7 @@ PRE_STATES = [
     ['delete-entity(N1)', 'location(1)'],
     ['patient-new(A)', 'patient-new(B)', 'update-descr(N1)'],
     ['create-channel+metric', 'alert-cond(on)', 'delete(ch1)'],
+    ['patient-new(A)', 'patient-new(B)', 'patient-entity-new(C)'],
 ]
 
 
@@ -43,6 +44,16 @@ def _named_handles(fired):
     return named, in_reports, per_observable
 
 
+def _descriptor_of(snap, state_handle):
+    for key, obj in canon.content(snap).items():
+        if key == ('c', state_handle):
+            try:
+                return dict(obj[1]).get('DescriptorHandle')
+            except Exception:  # noqa: BLE001
+                return None
+    return None
+
+
 def check_step(rec):
     """Return None or (kind, signature, detail)."""
     if rec.result == 'raised':
@@ -60,7 +71,10 @@ def check_step(rec):
         return ('observable-names-unchanged-entity', ','.join(sorted(per_obs)), {'named_but_unchanged': false_names,
                                                                                 'changed': sorted(changed),
                                                                                 'observables': {k: sorted(v) for k, v in per_obs.items()}})
-    missing = sorted(h for h in changed if h not in named and h not in in_reports)
+    # a context state that disappears because its (multi-state) descriptor was updated without it is named through that
+    # descriptor: the entity that the report changed is the context descriptor with its states
+    implicit = {k[1] for k in deleted if k[0] == 'c' and _descriptor_of(rec.before, k[1]) in (named | in_reports)}
+    missing = sorted(h for h in changed if h not in named and h not in in_reports and h not in implicit)
     if missing:
         return ('changed-entity-not-named', ','.join(sorted(per_obs)) or 'none', {'changed_but_not_named': missing,
                                                                                   'observables': {k: sorted(v) for k, v in per_obs.items()}})
